@@ -143,9 +143,10 @@ def role_positions(tokens):
     return roles
 
 
-INJECTIONS = ["missing-if", "missing-then", "missing-is", "missing-with", "missing-variable", "missing-term",
+INJECTIONS = ["missing-if", "missing-then", "missing-is", "missing-with", "missing-connective", "missing-variable", "missing-term",
               "missing-operand", "unknown-variable", "unknown-term", "unknown-hedge", "unbalanced-open", "unbalanced-close",
-              "paren-deleted", "non-numeric-weight", "trailing-token", "missing-weight", "ends-in-is", "ends-in-hedge"]
+              "paren-deleted", "non-numeric-weight", "trailing-token", "missing-weight", "ends-in-is", "ends-in-hedge",
+              "consequent-or"]
 
 
 def inject(rng, base, how):
@@ -163,6 +164,11 @@ def inject(rng, base, how):
         if "with" not in t:
             t = t + ["with", "0.5"]
         i = t.index("with")
+        return t[:i] + t[i + 1:]
+    if how == "missing-connective":
+        if not r["conn"]:
+            return None
+        i = rng.choice(r["conn"])
         return t[:i] + t[i + 1:]
     if how == "missing-variable":
         i = rng.choice(r["var"])
@@ -217,6 +223,13 @@ def inject(rng, base, how):
         if "with" in t:
             t = t[:t.index("with")]
         return t + ["with"]
+    if how == "consequent-or":
+        # the conclusions are joined by `and` only: `or` there is a missing `and` plus a stray token
+        ands = [i for i in range(then + 1, len(t)) if t[i] == "and"]
+        if not ands:
+            return None
+        t[rng.choice(ands)] = "or"
+        return t
     if how == "ends-in-is":
         # the antecedent ends in `is` (F5 family)
         i = [k for k in r["is"] if k < then][-1]
@@ -229,7 +242,7 @@ def inject(rng, base, how):
 
 def mutate(rng, base):
     t = list(base["tokens"])
-    how = rng.choice(["delete", "delete", "duplicate", "substitute", "substitute", "swap", "shuffle", "insert"])
+    how = rng.choice(["delete", "delete", "duplicate", "substitute", "substitute", "swap", "shuffle", "insert", "keyword"])
     n = len(t)
     if how == "delete":
         i = rng.randrange(n)
@@ -240,6 +253,10 @@ def mutate(rng, base):
     elif how == "substitute":
         i = rng.randrange(n)
         t[i] = rng.choice(substitute_pool(base))
+    elif how == "keyword":
+        kws = [i for i, x in enumerate(t) if x in ("if", "then", "is", "and", "or", "with", "any")]
+        i = rng.choice(kws)
+        t[i] = rng.choice([k for k in ("if", "then", "is", "and", "or", "with", "any") if k != t[i]])
     elif how == "insert":
         i = rng.randrange(n + 1)
         t = t[:i] + [rng.choice(substitute_pool(base))] + t[i:]
